@@ -20,6 +20,11 @@ def seq(x):
     return x
 
 
+# characters the specification writes by name (TLA+ source is ASCII)
+NAMED = {"&szlig;": "\u00df", "&Idot;": "\u0130", "&cdot;": "\u0307", "&napos;": "\u0149", "&apos2;": "\u02bc"}
+UNNAMED = {c: n for n, c in NAMED.items()}
+
+
 def to_py(v, root=None):
     t = v["t"]
     if t == "none":
@@ -33,7 +38,7 @@ def to_py(v, root=None):
     if t == "fspec":
         return {"inf": math.inf, "ninf": -math.inf, "nan": math.nan}[v["k"]]
     if t == "str":
-        s = "".join(seq(v["s"]))
+        s = "".join(NAMED.get(c, c) for c in seq(v["s"]))
         if root is not None:
             s = s.replace("$", root)
         return s
@@ -77,7 +82,7 @@ def to_abs(x, root=None):
     if isinstance(x, str):
         if root is not None and root in x:
             x = x.replace(root, "$")
-        return {"t": "str", "s": list(x)}
+        return {"t": "str", "s": [UNNAMED.get(c, c) for c in x]}
     if isinstance(x, (bytes, bytearray)):
         return {"t": "bytes", "y": list(x)}
     if isinstance(x, tuple) and not hasattr(x, "_fields"):
